@@ -7,92 +7,142 @@ LI = 'unic_langid_impl'
 LO = 'unic_locale_impl'
 
 
+def wiring_paths(prog, fn, flag, core, disp, wrap=None, input_param=1):
+    """problems (list of str) of one entry function as a parse entry: on every path exactly one run of the shared core parser with the constant
+    allow_extension = flag on split(whole input).peekable(); for flag = 1 then the extension parser on the same iterator; the parsed value /
+    the error kind returned unchanged (wrap = 'to_string': the value's to_string() is returned instead).  Loop-free wrappers between the
+    entry and the core parser (from_bytes, parse_language_identifier, parse_locale ...) are explored inline, so it does not matter through
+    which of them the entry goes."""
+    opaque = set(core) | set(disp)
+    e = pxm.PX(prog, opaque=opaque)
+    segs = e.explore(fn)
+    bad = []
+
+    def unwrap_ok(r):
+        """payload of a successful return, None if r is not Ok(..)"""
+        if not (r[0] == 'adt' and r[2] == 'Ok' and r[3]):
+            return None
+        x = r[3][0]
+        if wrap == 'to_string':
+            if not (x[0] in ('call', 'pure') and x[1].endswith('ToString>::to_string') and len(x[2]) == 1):
+                return None
+            x = x[2][0]
+            while x[0] in ('cref', 'ref'):
+                x = e.deref_value(segs[0].state, x) if x[0] == 'ref' else x[1]
+        return x
+
+    for s in segs:
+        if s.kind != 'return':
+            bad.append('path ends in %s' % s.kind)
+            continue
+        cc = entry.calls_to(s, core)
+        dc = entry.calls_to(s, disp)
+        if len(cc) != 1:
+            bad.append('the core parser is called %d times on a path' % len(cc))
+            continue
+        # the token stream is exactly split(input).peekable(): no adaptor may drop, merge or reorder subtags
+        itv = iterator_value(e, s, cc[0][2][0])
+        if itv is None:
+            bad.append('INCONCLUSIVE(the iterator handed to the parser is not traced to its construction)')
+        else:
+            shape_ok = itv[0] == 'pure' and itv[1].split('::')[-1] == 'peekable' and len(itv[2]) == 1 and itv[2][0][0] == 'pure' \
+                and re.search(r'slice::<impl \[T\]>::split$', itv[2][0][1]) is not None
+            if not shape_ok:
+                bad.append('the token stream is not split(input).peekable(): %s' % e.short(itv, 160))
+            else:
+                ap = terms.access_path(itv[2][0][2][0])
+                if not (ap and ap[0] == input_param and terms.strip_some(ap[1]) == ()):
+                    bad.append('the split is not applied to the whole input')
+        if cc[0][2][1] != ('int', flag):
+            bad.append('core parser called with allow_extension = %s (expected the constant %s)' % (e.short(cc[0][2][1]), bool(flag)))
+        core_tag = [v for k, v in s.state.facts.items() if k[0] == 'tag' and k[1][0] == 'call' and k[1][1] in core]
+        r = s.ret
+        if flag == 0:
+            if dc:
+                bad.append('LanguageIdentifier parsing consults the extension parser')
+            if core_tag == ['pos']:
+                x = unwrap_ok(r)
+                if not (x is not None and x[0] == 'pos' and x[1][0] == 'call' and x[1][1] in core):
+                    bad.append('success does not return the core parser\'s value%s unchanged: %s' % ("'s to_string()" if wrap else '', e.short(r, 160)))
+            elif core_tag == ['neg']:
+                if not (r[0] == 'adt' and r[2] == 'Err'):
+                    bad.append('failure of the core parser is not returned as an error')
+                elif not terms.find_terms(r, lambda t: t[0] == 'neg' and t[1][0] == 'call' and t[1][1] in core):
+                    bad.append('the error kind of the core parser is not preserved: %s' % e.short(r, 160))
+            elif not core_tag and wrap is None and passes_core_result(e, s, r, core):
+                pass        # the core parser's Result returned as it is (or through map_err with an error-preserving function)
+            else:
+                bad.append('result of the core parser not tested')
+        else:
+            if core_tag == ['neg']:
+                if dc:
+                    bad.append('extensions parsed although the language identifier failed')
+                if not (r[0] == 'adt' and r[2] == 'Err' and terms.find_terms(r, lambda t: t[0] == 'adt' and t[2] == 'InvalidLanguage')):
+                    bad.append('failure of the language identifier is not reported as InvalidLanguage: %s' % e.short(r, 160))
+            elif core_tag == ['pos']:
+                if len(dc) != 1:
+                    bad.append('the extension parser is called %d times after a successful language identifier' % len(dc))
+                    continue
+                if dc[0][2][0] != cc[0][2][0]:
+                    bad.append('extensions are parsed from a different iterator than the language identifier')
+                dtag = [v for k, v in s.state.facts.items() if k[0] == 'tag' and k[1][0] == 'call' and k[1][1] in disp]
+                if dtag == ['pos']:
+                    loc = unwrap_ok(r)
+                    ok = loc is not None and loc[0] == 'adt' and loc[2] == 'Locale' and len(loc[3]) == 2 \
+                        and loc[3][0][0] == 'pos' and loc[3][0][1][0] == 'call' and loc[3][0][1][1] in core \
+                        and loc[3][1][0] == 'pos' and loc[3][1][1][0] == 'call' and loc[3][1][1][1] in disp
+                    if not ok:
+                        bad.append('the result is not %s{id: parsed identifier, extensions: parsed extensions}: %s' % ('the to_string() of Locale ' if wrap else 'the Locale ', e.short(r, 200)))
+                elif dtag == ['neg']:
+                    if not (r[0] == 'adt' and r[2] == 'Err' and terms.find_terms(r, lambda t: t[0] == 'neg' and t[1][0] == 'call' and t[1][1] in disp)):
+                        bad.append('an extension error is not propagated: %s' % e.short(r, 160))
+                else:
+                    bad.append('result of the extension parser not tested')
+            else:
+                bad.append('result of the core parser not tested')
+    if e.unmodelled:
+        bad.append('INCONCLUSIVE(unmodelled callee %s)' % list(e.unmodelled)[0])
+    if not segs:
+        bad.append('no path explored')
+    return sorted(set(bad)), len(segs)
+
+
+def passes_core_result(e, s, r, core):
+    """r is the core parser's call result itself, or map_err(that, f) with f keeping the error kind inside its result"""
+    def is_core(x):
+        return x[0] == 'call' and x[1] in core
+    if is_core(r):
+        return True
+    if r[0] == 'map_err' and is_core(r[1]):
+        probe = ('neg', r[1])
+        try:
+            outs = e.call_closure(s.state.copy(), r[2], [probe])
+        except Exception:
+            return False
+        return bool(outs) and all(rv != ('PANIC',) and terms.find_terms(rv, lambda t: t == probe) for _, rv in outs)
+    return False
+
+
+def parsers(prog):
+    return entry.core_parser(prog), entry.find_method(prog, LO, 'ExtensionsMap', 'try_from_iter')
+
+
 def wiring(prog, rep):
     """both parsers reach the same core body, LanguageIdentifier with constant false, Locale with constant true, then the extension map
     on the same iterator; Locale maps a language-identifier failure to InvalidLanguage and propagates extension errors"""
-    core = entry.core_parser(prog)
+    core, disp = parsers(prog)
     rep.floor('shared language-identifier core parser', len(core), 1)
-    disp = entry.find_method(prog, LO, 'ExtensionsMap', 'try_from_iter')
     rep.floor('extension dispatcher', len(disp), 1)
-    opaque = set(core) | set(disp)
-    res = {}
     for label, fns, flag in (('LanguageIdentifier::from_bytes', entry.find_method(prog, LI, 'LanguageIdentifier', 'from_bytes'), 0),
                              ('parse_locale', entry.find_fn(prog, LO, 'parse_locale'), 1),
                              ('Locale::from_bytes', entry.find_method(prog, LO, 'Locale', 'from_bytes'), 1)):
         rep.floor('%s bodies' % label, len(fns), 1)
         for fn in fns:
             b = prog.bodies[fn]
-            e = pxm.PX(prog, opaque=opaque)
-            segs = e.explore(fn)
-            bad = []
-            for s in segs:
-                if s.kind != 'return':
-                    bad.append('path ends in %s' % s.kind)
-                    continue
-                cc = entry.calls_to(s, core)
-                dc = entry.calls_to(s, disp)
-                if len(cc) != 1:
-                    bad.append('the core parser is called %d times on a path' % len(cc))
-                    continue
-                # the token stream is exactly split(input).peekable(): no adaptor may drop, merge or reorder subtags
-                itv = iterator_value(e, s, cc[0][2][0])
-                if itv is None:
-                    bad.append('INCONCLUSIVE(the iterator handed to the parser is not traced to its construction)')
-                else:
-                    shape_ok = itv[0] == 'pure' and itv[1].split('::')[-1] == 'peekable' and len(itv[2]) == 1 and itv[2][0][0] == 'pure' \
-                        and re.search(r'slice::<impl \[T\]>::split$', itv[2][0][1]) is not None
-                    if not shape_ok:
-                        bad.append('the token stream is not split(input).peekable(): %s' % e.short(itv, 160))
-                    else:
-                        ap = terms.access_path(itv[2][0][2][0])
-                        if not (ap and ap[0] == 1 and terms.strip_some(ap[1]) == ()):
-                            bad.append('the split is not applied to the whole input')
-                if cc[0][2][1] != ('int', flag):
-                    bad.append('core parser called with allow_extension = %s (expected the constant %s)' % (e.short(cc[0][2][1]), bool(flag)))
-                core_tag = [v for k, v in s.state.facts.items() if k[0] == 'tag' and k[1][0] == 'call' and k[1][1] in core]
-                if flag == 0:
-                    if dc:
-                        bad.append('LanguageIdentifier parsing consults the extension parser')
-                    r = s.ret
-                    if core_tag == ['pos']:
-                        if not (r[0] == 'adt' and r[2] == 'Ok' and r[3][0][0] == 'pos' and r[3][0][1][0] == 'call' and r[3][0][1][1] in core):
-                            bad.append('success does not return the core parser\'s value unchanged: %s' % e.short(r, 160))
-                    elif core_tag == ['neg']:
-                        if not (r[0] == 'adt' and r[2] == 'Err'):
-                            bad.append('failure of the core parser is not returned as an error')
-                        elif not terms.find_terms(r, lambda t: t[0] == 'neg' and t[1][0] == 'call' and t[1][1] in core):
-                            bad.append('the error kind of the core parser is not preserved: %s' % e.short(r, 160))
-                else:
-                    r = s.ret
-                    if core_tag == ['neg']:
-                        if dc:
-                            bad.append('extensions parsed although the language identifier failed')
-                        if not (r[0] == 'adt' and r[2] == 'Err' and terms.find_terms(r, lambda t: t[0] == 'adt' and t[2] == 'InvalidLanguage')):
-                            bad.append('failure of the language identifier is not reported as InvalidLanguage: %s' % e.short(r, 160))
-                    elif core_tag == ['pos']:
-                        if len(dc) != 1:
-                            bad.append('the extension parser is called %d times after a successful language identifier' % len(dc))
-                            continue
-                        if dc[0][2][0] != cc[0][2][0]:
-                            bad.append('extensions are parsed from a different iterator than the language identifier')
-                        dtag = [v for k, v in s.state.facts.items() if k[0] == 'tag' and k[1][0] == 'call' and k[1][1] in disp]
-                        if dtag == ['pos']:
-                            loc = r[3][0] if r[0] == 'adt' and r[2] == 'Ok' else None
-                            ok = loc is not None and loc[0] == 'adt' and loc[2] == 'Locale' and len(loc[3]) == 2 \
-                                and loc[3][0][0] == 'pos' and loc[3][0][1][0] == 'call' and loc[3][0][1][1] in core \
-                                and loc[3][1][0] == 'pos' and loc[3][1][1][0] == 'call' and loc[3][1][1][1] in disp
-                            if not ok:
-                                bad.append('the Locale is not {id: parsed identifier, extensions: parsed extensions}: %s' % e.short(r, 200))
-                        elif dtag == ['neg']:
-                            if not (r[0] == 'adt' and r[2] == 'Err' and terms.find_terms(r, lambda t: t[0] == 'neg' and t[1][0] == 'call' and t[1][1] in disp)):
-                                bad.append('an extension error is not propagated: %s' % e.short(r, 160))
-                    else:
-                        bad.append('result of the core parser not tested')
-            if e.unmodelled:
-                bad.append('INCONCLUSIVE(unmodelled callee %s)' % list(e.unmodelled)[0])
+            bad, npaths = wiring_paths(prog, fn, flag, core, disp)
             rep.ob('wiring:%s' % label, 'PAIR-CORE', fn, b['span'],
                    '%s runs the shared core parser with allow_extension = %s%s' % (label, bool(flag), ', then the extension parser on the same iterator' if flag else ' and returns its result'),
-                   not bad and segs, detail='\n'.join(sorted(set(bad))[:5]), how='%d paths' % len(segs))
+                   not bad, detail='\n'.join(bad[:5]), how='%d paths' % npaths)
     return core, disp
 
 
